@@ -108,7 +108,19 @@ def kext_lines(rng, tier, have):
             for op in ("k_addlsh1_n", "k_sublsh1_n", "k_rsh1add_n", "k_rsh1sub_n"): emit("%s %x %s %s", op, md, vec(u), vec(v))
             for op in ("k_addlsh_n", "k_sublsh_n"): emit("%s %x %s %s %x", op, md, vec(u), vec(v), rng.randrange(1, 64))
             for op in ("k_add_nc", "k_sub_nc"): emit("%s %x %s %s %x", op, md, vec(u), vec(v), rng.randrange(2))
-            for op in ("k_lshift1", "k_lshift2", "k_rshift1", "k_rshift2", "k_divexact_byff"): emit("%s %x %s", op, rng.randrange(2), vec(u))
+            for op in ("k_lshift1", "k_lshift2", "k_rshift1", "k_rshift2", "k_divexact_byff", "k_lshift3", "k_lshift4", "k_lshift5", "k_lshift6"): emit("%s %x %s", op, rng.randrange(2), vec(u))
+            dd = rng.choice([1, 3, 5, 7, M, M - 2, (1 << 63) + 1, (1 << 32) + 1, rng.getrandbits(64) | 1, rng.getrandbits(64) | 1, rng.getrandbits(rng.randrange(1, 64)) | 1])
+            emit("k_divrem_hensel_qr_1_1 %x %s %x", rng.randrange(2), vec(u), dd); emit("k_divrem_hensel_r_1 %s %x", vec(u), dd)
+            emit("k_rsh_divrem_hensel_qr_1_1 %x %s %x %x %x", rng.randrange(2), vec(u), dd, rng.randrange(64), rng.choice([0, 0, 1, dd - 1, rng.randrange(dd)]))
+            if n >= 2: emit("k_divrem_hensel_qr_1_2 %x %s %x", rng.randrange(2), vec(u), dd)
+            if n >= 3:      # the assembly kernels need n >= 3 ("3limb minimum", mpn/x86_64/k8/rsh_divrem_hensel_qr_1_2.asm:33; they fault at n = 2, the C routine accepts 2)
+                emit("k_rsh_divrem_hensel_qr_1_2 %x %s %x %x %x", rng.randrange(2), vec(u), dd, rng.randrange(64), rng.choice([0, 0, 1, dd - 1, rng.randrange(dd)]))
+            ex = limbs_of(sum(a << (64 * i) for i, a in enumerate(v)) * dd, n)          # exact multiples: ret = high part only
+            emit("k_divrem_hensel_qr_1_1 0 %s %x", vec(ex), dd)
+            for k, lim in ((1, (1 << 63) + 1), (2, M // 3 + 1), (3, (1 << 62) + 1)):
+                if n >= k + 2:
+                    d1 = rng.choice([lim, lim - 1, 1, 2, 3, rng.randrange(1, lim + 1), rng.randrange(1, lim + 1), rng.getrandbits(rng.randrange(1, 62)) + 1])
+                    emit("k_mod_1_%d %s %x", k, vec(u), d1)
             emit("k_lshiftc %x %s %x", rng.randrange(2), vec(u), rng.randrange(1, 64))
             for op in ("k_not", "k_double", "k_half", "k_popcount", "k_sqr_basecase"):
                 if op != "k_sqr_basecase" or n <= 16: emit("%s %s", op, vec(u))
@@ -420,7 +432,7 @@ def kernel_stage(ctx, cov):
         kc["found"], kc["assembled"], kc["executable_on_host"], dirs, len(tested), evals, len(kc["no_model_op"]), len(out), time.time() - t0))
     return out
 
-DEFERRED_OPS = {"k_nsumdiff_n"}
+DEFERRED_OPS = set()      # ops with a listed known finding (none at present)
 
 def deferred_stage(ctx, cov):
     """default build, ops of DEFERRED_OPS: every distinct (op, mode) disagreement is reported on its own"""
